@@ -158,7 +158,7 @@ int main(int argc, char** argv) {
     for (auto& form : forms)
       for (int r = 0; r < runs; ++r) {
         vf::crash_ctx().where = "sparse " + form + " " + bj::serialize(in.d_set());
-        Cx c = run_sparse(in, pr, form);
+        Cx c = run_sparse(in, pr, form, r % 2 == 1);
         ++n_runs;
         std::string key = c.key() + "|" + c.exception + "|" + std::to_string(c.problems.size());
         auto ins = outs.emplace(key, std::make_pair(c, 0L));
